@@ -108,10 +108,59 @@ struct PolicyCfg {
     failover: bool,
     token_aware: bool,
     shuffle: bool,
+    /// through which public entry point / builder history the policy object is obtained
+    route: Route,
+    /// latency awareness switched on; every node then gets 60 equal latency reports, so nobody may be
+    /// penalised and the plan must obey the same oracle
+    latency_aware: bool,
 }
+
+#[derive(Clone, Copy, Debug, PartialEq, Eq)]
+enum Route {
+    /// builder, each setter called once
+    Direct,
+    /// builder on which contradicting setters were called first (the last call must win)
+    Overwritten,
+    /// like Direct, but on a clone of a builder that was already used to build another policy
+    ClonedBuilder,
+    /// `DefaultPolicy::default()` - no builder (only for: inherited preference, no failover, token-aware, shuffling)
+    DefaultImpl,
+}
+impl Route {
+    fn name(self) -> &'static str {
+        match self {
+            Route::Direct => "direct",
+            Route::Overwritten => "overwritten",
+            Route::ClonedBuilder => "cloned-builder",
+            Route::DefaultImpl => "default-impl",
+        }
+    }
+    fn from_name(s: &str) -> Route {
+        [Route::Direct, Route::Overwritten, Route::ClonedBuilder, Route::DefaultImpl].into_iter().find(|r| r.name() == s).unwrap_or(Route::Direct)
+    }
+}
+
 impl PolicyCfg {
     fn build(&self) -> Arc<dyn LoadBalancingPolicy> {
-        let mut b = DefaultPolicy::builder().token_aware(self.token_aware).permit_dc_failover(self.failover).enable_shuffling_replicas(self.shuffle);
+        if self.route == Route::DefaultImpl {
+            assert!(self.inherited && !self.failover && self.token_aware && self.shuffle && !self.latency_aware);
+            return Arc::new(DefaultPolicy::default());
+        }
+        let mut b = match self.route {
+            Route::Overwritten => scylla::policies::load_balancing::DefaultPolicyBuilder::default()
+                .prefer_datacenter_and_rack("overwritten-dc".into(), "overwritten-rack".into())
+                .token_aware(!self.token_aware)
+                .permit_dc_failover(!self.failover)
+                .enable_shuffling_replicas(!self.shuffle),
+            Route::ClonedBuilder => {
+                let used = DefaultPolicy::builder().prefer_datacenter("dc-of-the-first-build".into()).permit_dc_failover(!self.failover);
+                let clone = used.clone();
+                let _first = used.build();
+                clone
+            }
+            _ => DefaultPolicy::builder(),
+        };
+        b = b.token_aware(self.token_aware).permit_dc_failover(self.failover).enable_shuffling_replicas(self.shuffle);
         b = if self.inherited {
             b.inherit_location_preference()
         } else {
@@ -121,13 +170,26 @@ impl PolicyCfg {
                 Pref::DcRack(d, r) => b.prefer_datacenter_and_rack(d.clone(), r.clone()),
             }
         };
+        if self.latency_aware {
+            b = b.latency_awareness(scylla::policies::load_balancing::LatencyAwarenessBuilder::new());
+            // the builder spawns its updater task: needs a runtime context
+            return topo::in_runtime_context(|| b.build());
+        }
         b.build()
     }
     fn to_json(&self) -> Value {
-        json!({"pref": self.pref.to_json(), "inherited": self.inherited, "failover": self.failover, "token_aware": self.token_aware, "shuffle": self.shuffle})
+        json!({"pref": self.pref.to_json(), "inherited": self.inherited, "failover": self.failover, "token_aware": self.token_aware, "shuffle": self.shuffle, "route": self.route.name(), "latency_aware": self.latency_aware})
     }
     fn from_json(v: &Value) -> PolicyCfg {
-        PolicyCfg { pref: Pref::from_json(&v["pref"]), inherited: v["inherited"].as_bool().unwrap_or(false), failover: v["failover"].as_bool().unwrap_or(false), token_aware: v["token_aware"].as_bool().unwrap_or(true), shuffle: v["shuffle"].as_bool().unwrap_or(true) }
+        PolicyCfg {
+            pref: Pref::from_json(&v["pref"]),
+            inherited: v["inherited"].as_bool().unwrap_or(false),
+            failover: v["failover"].as_bool().unwrap_or(false),
+            token_aware: v["token_aware"].as_bool().unwrap_or(true),
+            shuffle: v["shuffle"].as_bool().unwrap_or(true),
+            route: Route::from_name(v["route"].as_str().unwrap_or("direct")),
+            latency_aware: v["latency_aware"].as_bool().unwrap_or(false),
+        }
     }
 }
 
@@ -443,6 +505,8 @@ struct Tally {
     picks_none: u64,
     empty_plans: u64,
     tablet_plans: u64,
+    midplan_histories: u64,
+    midplan_first_target_named_again: u64,
     signatures: BTreeSet<String>,
 }
 
@@ -451,6 +515,7 @@ struct Env<'a> {
     sink: &'a MinViolations,
     signatures: Mutex<BTreeSet<String>>,
     repeats: usize,
+    extras_upto_nodes: usize,
 }
 impl Env<'_> {
     fn absorb(&self, t: Tally) {
@@ -462,6 +527,8 @@ impl Env<'_> {
         self.r.counters.add("pick_returned_none", t.picks_none);
         self.r.counters.add("empty_plans_expected_and_observed", t.empty_plans);
         self.r.counters.add("plans_for_tablet_table_requests", t.tablet_plans);
+        self.r.counters.add("midplan_state_change_histories", t.midplan_histories);
+        self.r.counters.add("midplan_first_target_named_again_after_it_went_down", t.midplan_first_target_named_again);
         self.signatures.lock().unwrap().extend(t.signatures);
     }
 }
@@ -497,6 +564,9 @@ fn build(c: &Concrete, absent_dc: &str) -> Cluster {
                 t.push(hi + 1);
             }
         }
+        if t.is_empty() {
+            t.push(0); // empty ring: any token
+        }
         t
     };
     let placements = strategies.iter().map(|s| tokens.iter().map(|t| ring.replicas_ring_order(Token::new(*t).value(), s)).collect()).collect();
@@ -518,7 +588,7 @@ fn case_json(cl: &Cluster, tablet: Option<&TabletSpec>, absent_dc: &str, states:
 
 /// Run one (states already installed, policy, request) case: Plan to exhaustion (+ repeats), pick, fallback.
 #[allow(clippy::too_many_arguments)]
-fn run_case(env: &Env, tally: &mut Tally, cl: &Cluster, tablet: Option<(&ClusterState, &TabletSpec)>, absent_dc: &str, rank: u64, states: &[NodeState], cfg: &PolicyCfg, policy: &dyn LoadBalancingPolicy, driver_pref: &NodeLocationPreference, req: &Request, verbose: bool) {
+fn run_case(env: &Env, tally: &mut Tally, cl: &Cluster, tablet: Option<(&ClusterState, &TabletSpec)>, absent_dc: &str, rank: u64, states: &[NodeState], cfg: &PolicyCfg, policy: &dyn LoadBalancingPolicy, driver_pref: &NodeLocationPreference, req: &Request, verbose: bool, midplan: bool) {
     let unknown = TableSpec::borrowed("no_such_keyspace", "t");
     let tablet_table = TableSpec::borrowed("kt", "t");
     let cluster_state: &ClusterState = tablet.map(|t| t.0).unwrap_or(&cl.state);
@@ -649,6 +719,8 @@ fn run_case(env: &Env, tally: &mut Tally, cl: &Cluster, tablet: Option<(&Cluster
     }
     // pick on its own: if it names a target, that target belongs to the best non-empty group
     let pk = catch(AssertUnwindSafe(|| policy.pick(&ri, cluster_state).map(|(n, s)| (topo::node_index(n.host_id), s))));
+    // whether pick() names a target is a function of the states alone (which one it names is not)
+    let pick_names_a_target = matches!(pk, Ok(Some(_)));
     match pk {
         Err(p) => report("pick:panic", format!("pick panicked at {}: {p}", vcore::last_panic_location())),
         Ok(None) => {
@@ -677,15 +749,89 @@ fn run_case(env: &Env, tally: &mut Tally, cl: &Cluster, tablet: Option<(&Cluster
             }
         }
     }
+    // History: node states change between the first and the second target of one plan (the usual reason to ask
+    // for a second target is that the first one just died): the first target's node goes down, every other
+    // enabled node flips up <-> down. The rest of the plan must then describe the NEW states.
+    if midplan {
+        let got = catch(AssertUnwindSafe(|| {
+            let mut plan = Plan::new(policy, &ri, cluster_state);
+            let first = plan.next().map(|(n, _)| topo::node_index(n.host_id));
+            let b_states: Vec<NodeState> = states
+                .iter()
+                .enumerate()
+                .map(|(i, s)| match s {
+                    NodeState::Disabled => NodeState::Disabled,
+                    _ if Some(i) == first => NodeState::Down,
+                    NodeState::Up => NodeState::Down,
+                    NodeState::Down => NodeState::Up,
+                })
+                .collect();
+            install(cl, &b_states);
+            let tail: Vec<usize> = plan.by_ref().map(|(n, _)| topo::node_index(n.host_id)).collect();
+            let after_end = (plan.next().is_some(), plan.next().is_some());
+            (first, b_states, tail, after_end)
+        }));
+        install(cl, states);
+        match got {
+            Err(p) => report("midplan:panic", format!("plan iteration across a state change panicked at {}: {p}", vcore::last_panic_location())),
+            Ok((None, _, tail, _)) => {
+                if !tail.is_empty() {
+                    report("midplan:targets-after-none", format!("the plan returned no first target but then {tail:?}"));
+                }
+            }
+            Ok((Some(first), b_states, tail, after_end)) => {
+                tally.midplan_histories += 1;
+                if verbose {
+                    println!("  mid-plan history: first target {first}; states then {:?}; rest of the plan {tail:?}", b_states.iter().map(|s| s.letter()).collect::<String>());
+                }
+                if after_end.0 || after_end.1 {
+                    report("plan:not-fused", format!("the exhausted plan yields targets again (first {first}, rest {tail:?})"));
+                }
+                if tail.contains(&first) {
+                    tally.midplan_first_target_named_again += 1; // observed, not asserted: see demos/C05.md (Audit)
+                }
+                let mut exp_b = expectation(&cl.ring, &b_states, cfg, reps, lwt);
+                if first < exp_b.class.len() {
+                    // the first target's node is judged by the pick check above; in the rest it is neither demanded nor forbidden
+                    exp_b.class[first] = None;
+                    exp_b.why_excluded[first] = "owns no token";
+                }
+                if let Some(p) = exp_b.lwt_prefix.as_mut() {
+                    p.retain(|i| *i != first);
+                }
+                for (key, text) in judge(&tail, &exp_b, "midplan") {
+                    // If pick() named the first target, fallback() is called - and evaluated - entirely under the new
+                    // states, and everything is demanded of it. If pick() returned None, the plan is ONE lazily evaluated
+                    // fallback() begun under the old states: its segments see the states at the moment they are pulled,
+                    // so only what does not depend on up/down is demanded (no duplicate, no disabled node, nothing
+                    // outside the preferred datacenter).
+                    if !pick_names_a_target && !(key.ends_with(":duplicate") || key.ends_with(":disabled-node") || key.ends_with(":outside-preferred-dc")) {
+                        continue;
+                    }
+                    report(&key, format!("{text} (first target {first} was taken under the states shown; then the states became {:?})", b_states.iter().map(|s| s.letter()).collect::<String>()));
+                }
+            }
+        }
+    }
+}
+
+/// One family of policy objects of a leg (crossed with every preference and failover on/off).
+#[derive(Clone)]
+struct Variant {
+    inherited: bool,
+    shuffle: bool,
+    token_aware: bool,
+    route: Route,
+    latency_aware: bool,
+    lwt: Vec<Lwt>,
+    /// also run the mid-plan history: node states change between the first and the second target
+    midplan: bool,
 }
 
 struct Dims {
     /// full product of node states (else the few_states subset)
     all_states: bool,
-    inherited: Vec<bool>,
-    shuffle: Vec<bool>,
-    token_aware: Vec<bool>,
-    lwt: Vec<Lwt>,
+    variants: Vec<Variant>,
     all_tokens: bool,
     /// additionally this many seeded random {disabled,down,up} assignments (a SAMPLED dimension, used
     /// only for the larger pinned cluster where 3^n is out of reach)
@@ -726,27 +872,37 @@ fn run_cluster(env: &Env, c: &Concrete, absent_dc: &str, topo_rank: u64, legs: &
         }
         let tokens: Vec<i64> = if dims.all_tokens && n <= 4 || cl.space.tokens.len() <= 2 { cl.space.tokens.clone() } else { vec![cl.space.tokens[0], cl.space.tokens[cl.space.tokens.len() / 2], *cl.space.tokens.last().unwrap()] };
         // policies are independent of node states: build them once
-        let mut policies: Vec<(PolicyCfg, Arc<dyn LoadBalancingPolicy>, NodeLocationPreference)> = Vec::new();
+        let mut policies: Vec<(PolicyCfg, Arc<dyn LoadBalancingPolicy>, NodeLocationPreference, &Variant)> = Vec::new();
         for pref in &cl.space.prefs {
-            for &inherited in &dims.inherited {
+            for v in &dims.variants {
+                // the non-basic variants (other entry points, latency awareness, mid-plan history) are spent on
+                // clusters of up to `extras_upto_nodes` nodes
+                if (v.route != Route::Direct || v.latency_aware || v.midplan) && n > env.extras_upto_nodes {
+                    continue;
+                }
                 for failover in [false, true] {
-                    if pref.dc().is_none() && failover {
-                        // without a preferred datacenter the failover flag is inert; covered once below
+                    if v.route == Route::DefaultImpl && failover {
+                        continue;
                     }
-                    for &token_aware in &dims.token_aware {
-                        for &shuffle in &dims.shuffle {
-                            let cfg = PolicyCfg { pref: pref.clone(), inherited, failover, token_aware, shuffle };
-                            let p = cfg.build();
-                            policies.push((cfg, p, pref.to_driver()));
+                    let cfg = PolicyCfg { pref: pref.clone(), inherited: v.inherited, failover, token_aware: v.token_aware, shuffle: v.shuffle, route: v.route, latency_aware: v.latency_aware };
+                    let p = cfg.build();
+                    if v.latency_aware {
+                        // 60 equal measurements per node (minimum_measurements is 50): nobody is slower than anybody
+                        let ri = RoutingInfo::default();
+                        for node in cl.state.get_nodes_info() {
+                            for _ in 0..60 {
+                                p.on_request_success(&ri, std::time::Duration::from_millis(5), node);
+                            }
                         }
                     }
+                    policies.push((cfg, p, pref.to_driver(), v));
                 }
             }
         }
         for states in &states_list {
             install(&cl, states);
-            for (cfg, policy, driver_pref) in &policies {
-                for &lwt in &dims.lwt {
+            for (cfg, policy, driver_pref, variant) in &policies {
+                for &lwt in &variant.lwt {
                     let mut reqs: Vec<Request> = vec![Request { target: Target::Nothing, lwt }, Request { target: Target::UnknownKeyspace(tokens[0]), lwt }, Request { target: Target::TokenWithoutTable(tokens[0]), lwt }];
                     if cfg.token_aware {
                         for si in 0..cl.space.strategies.len() {
@@ -760,7 +916,7 @@ fn run_cluster(env: &Env, c: &Concrete, absent_dc: &str, topo_rank: u64, legs: &
                     }
                     for req in &reqs {
                         sub += 1;
-                        run_case(env, &mut tally, &cl, None, absent_dc, (topo_rank << 40) | sub, states, cfg, policy.as_ref(), driver_pref, req, false);
+                        run_case(env, &mut tally, &cl, None, absent_dc, (topo_rank << 40) | sub, states, cfg, policy.as_ref(), driver_pref, req, false, variant.midplan);
                     }
                 }
             }
@@ -771,7 +927,7 @@ fn run_cluster(env: &Env, c: &Concrete, absent_dc: &str, topo_rank: u64, legs: &
         let mut policies: Vec<(PolicyCfg, Arc<dyn LoadBalancingPolicy>, NodeLocationPreference)> = Vec::new();
         for pref in &cl.space.prefs {
             for failover in [false, true] {
-                let cfg = PolicyCfg { pref: pref.clone(), inherited: false, failover, token_aware: true, shuffle: true };
+                let cfg = PolicyCfg { pref: pref.clone(), inherited: false, failover, token_aware: true, shuffle: true, route: Route::Direct, latency_aware: false };
                 let p = cfg.build();
                 policies.push((cfg, p, pref.to_driver()));
             }
@@ -793,7 +949,7 @@ fn run_cluster(env: &Env, c: &Concrete, absent_dc: &str, topo_rank: u64, legs: &
                         for (tok, covered) in &toks {
                             sub += 1;
                             tally.tablet_plans += 1;
-                            run_case(env, &mut tally, &cl, Some((&taught, &spec)), absent_dc, (topo_rank << 40) | sub, states, cfg, policy.as_ref(), driver_pref, &Request { target: Target::Tablet(*tok, *covered), lwt }, false);
+                            run_case(env, &mut tally, &cl, Some((&taught, &spec)), absent_dc, (topo_rank << 40) | sub, states, cfg, policy.as_ref(), driver_pref, &Request { target: Target::Tablet(*tok, *covered), lwt }, false, false);
                         }
                     }
                 }
@@ -882,7 +1038,7 @@ fn replay(env: &Env, case: &Value) {
         }
         _ => None,
     };
-    run_case(env, &mut tally, &cl, tablet, &absent, 0, &states, &cfg, policy.as_ref(), &cfg.pref.to_driver(), &Request { target, lwt }, true);
+    run_case(env, &mut tally, &cl, tablet, &absent, 0, &states, &cfg, policy.as_ref(), &cfg.pref.to_driver(), &Request { target, lwt }, true, true);
 }
 
 /// One token per node (ring order = node order; every dc/rack placement, hence every ring order of
@@ -915,7 +1071,7 @@ fn main() {
     let r = Report::new("C05", "plans", "exploration", "E-ENUM");
     let sink = MinViolations::default();
     let thorough = r.tier().is_thorough();
-    let env = Env { r: &r, sink: &sink, signatures: Mutex::new(BTreeSet::new()), repeats: if thorough { 4 } else { 2 } };
+    let env = Env { r: &r, sink: &sink, signatures: Mutex::new(BTreeSet::new()), repeats: if thorough { 4 } else { 2 }, extras_upto_nodes: if thorough { 7 } else { 3 } };
     if let Some(case) = r.replay_case() {
         let env = Env { repeats: 4, ..env };
         replay(&env, &case);
@@ -929,8 +1085,29 @@ fn main() {
     let topos = if thorough { c05_topologies(5, 4, 3, 4) } else { c05_topologies(4, 3, 2, 3) };
     // leg "structure": every node-state assignment x preference x failover x {plain, LWT flag} on token-aware policies
     // leg "config":    a few node-state assignments x every policy switch x every LWT kind
-    let structure = Dims { all_states: true, inherited: vec![false], shuffle: vec![true], token_aware: vec![true], lwt: vec![Lwt::Neither, Lwt::Flag], all_tokens: thorough, random_states: 0 };
-    let config = Dims { all_states: false, inherited: vec![false, true], shuffle: vec![true, false], token_aware: vec![true, false], lwt: Lwt::ALL.to_vec(), all_tokens: thorough, random_states: 0 };
+    let v = |inherited: bool, shuffle: bool, token_aware: bool, route: Route, latency_aware: bool, lwt: &[Lwt], midplan: bool| Variant { inherited, shuffle, token_aware, route, latency_aware, lwt: lwt.to_vec(), midplan };
+    let plain_and_lwt = [Lwt::Neither, Lwt::Flag];
+    let structure = Dims { all_states: true, variants: vec![v(false, true, true, Route::Direct, false, &plain_and_lwt, thorough)], all_tokens: thorough, random_states: 0 };
+    let mut config_variants = Vec::new();
+    for inherited in [false, true] {
+        for shuffle in [true, false] {
+            for token_aware in [true, false] {
+                config_variants.push(v(inherited, shuffle, token_aware, Route::Direct, false, &Lwt::ALL, false));
+            }
+        }
+    }
+    // alternative entry points / builder histories / latency awareness without any penalised node / mid-plan state change
+    config_variants.push(v(false, true, true, Route::Overwritten, false, &plain_and_lwt, false));
+    config_variants.push(v(false, false, false, Route::Overwritten, false, &plain_and_lwt, false));
+    config_variants.push(v(false, true, true, Route::ClonedBuilder, false, &plain_and_lwt, false));
+    config_variants.push(v(true, true, true, Route::Overwritten, false, &plain_and_lwt, false));
+    config_variants.push(v(true, true, true, Route::DefaultImpl, false, &plain_and_lwt, false));
+    config_variants.push(v(false, true, true, Route::Direct, true, &plain_and_lwt, false));
+    if thorough {
+        config_variants.push(v(true, false, true, Route::Direct, true, &plain_and_lwt, false));
+    }
+    config_variants.push(v(false, true, true, Route::Direct, false, &plain_and_lwt, true));
+    let config = Dims { all_states: false, variants: config_variants, all_tokens: thorough, random_states: 0 };
     let legs = [structure, config];
     let tablet_dims = TabletDims { all_states_upto_nodes: if thorough { 4 } else { 3 }, boundary_tokens: thorough };
     if r.args.has_flag("--count") {
@@ -950,11 +1127,11 @@ fn main() {
                 if (!d.all_tokens || n > 4) && ntok > 3 {
                     ntok = 3;
                 }
-                let pol_ta = prefs * d.inherited.len() as u64 * 2 * d.shuffle.len() as u64;
                 let per_ta = 3 + strategies * ntok;
-                let n_ta = d.token_aware.iter().filter(|x| **x).count() as u64;
-                let n_tu = d.token_aware.iter().filter(|x| !**x).count() as u64;
-                plans += states * pol_ta * d.lwt.len() as u64 * (n_ta * per_ta + n_tu * 4);
+                for v in &d.variants {
+                    let fo = if v.route == Route::DefaultImpl { 1 } else { 2 };
+                    plans += states * prefs * fo * v.lwt.len() as u64 * if v.token_aware { per_ta } else { 4 };
+                }
             }
             let tstates = if tablet_dims.all_states_upto_nodes >= n as usize { 3u64.pow(n) } else { few_states(n as usize).len() as u64 };
             plans += tablet_specs(n as usize, 0).len() as u64 * tstates * prefs * 2 * 2 * if tablet_dims.boundary_tokens { 4 } else { 2 };
@@ -986,6 +1163,10 @@ fn main() {
         }
     }
     r.counters.add("clusters_with_a_peer_that_owns_no_token", zero_token_variants);
+    // clusters whose ring is empty: one or two known peers, none owns a token
+    for k in 1..=2usize {
+        clusters.push(Concrete { nodes: (0..k).map(|i| topo::CNode { dc: Some(names.dcs[i % 2].to_string()), rack: Some(names.racks[0].to_string()), tokens: vec![] }).collect() });
+    }
     // biggest first, so that the long ones do not form the tail
     let mut order: Vec<usize> = (0..clusters.len()).collect();
     order.sort_by_key(|i| std::cmp::Reverse(clusters[*i].nodes.len()));
@@ -1002,7 +1183,7 @@ fn main() {
             nodes[*n].tokens.push(*t);
         }
         let before = r.evaluations.load(std::sync::atomic::Ordering::Relaxed);
-        let dims = Dims { all_states: false, inherited: vec![false], shuffle: vec![true], token_aware: vec![true], lwt: vec![Lwt::Neither, Lwt::Flag], all_tokens: true, random_states: if thorough { 400 } else { 40 } };
+        let dims = Dims { all_states: false, variants: vec![v(false, true, true, Route::Direct, false, &plain_and_lwt, false), v(false, true, true, Route::Direct, false, &plain_and_lwt, true)], all_tokens: true, random_states: if thorough { 400 } else { 40 } };
         run_cluster(&env, &Concrete { nodes }, "unknown", u32::MAX as u64, &[dims], Some(&TabletDims { all_states_upto_nodes: 0, boundary_tokens: false }));
         r.counters.add("plans_on_the_pinned_seven_node_cluster", r.evaluations.load(std::sync::atomic::Ordering::Relaxed) - before);
     }
@@ -1016,7 +1197,7 @@ fn main() {
         *by_len.entry(s.len()).or_default() += 1;
     }
     r.note("distinct_signatures_by_plan_length", json!(by_len.iter().map(|(k, v)| (k.to_string(), *v)).collect::<BTreeMap<String, u64>>()));
-    r.set_rule("E-ENUM. evaluations = plans = (topology, node-state assignment, policy configuration, request) cases; each: Plan::new(..) to exhaustion (LWT-routed ones constructed repeatedly), fallback() alone, pick() alone, judged by the set/group oracle. Leg structure: ALL {disabled,down,up}^n x every preference (none, each DC, each DC+rack incl. a non-existent rack, a DC absent from the ring) x failover on/off x {plain, LWT} x requests {no token, token without table, unknown keyspace, every strategy of the family x query tokens} on token-aware policies. Leg config: {all up, all down, all disabled, each single node down / disabled} x the same preferences x failover x inherited/own preference x shuffle on/off x token-aware on/off x 5 LWT kinds. Group letters: R/L/M live replica in preferred rack / preferred DC / remote, r/l/m live non-replica, d down. Plus the repo's pinned 7-node cluster under few + seeded random (SAMPLED) node-state assignments. distinct_nontrivial = plans with >= 3 targets from >= 2 groups.");
+    r.set_rule("E-ENUM. evaluations = plans = (topology, node-state assignment, policy configuration, request) cases; each: Plan::new(..) to exhaustion (LWT-routed ones constructed repeatedly), fallback() alone, pick() alone, judged by the set/group oracle. Leg structure: ALL {disabled,down,up}^n x every preference (none, each DC, each DC+rack incl. a non-existent rack, a DC absent from the ring) x failover on/off x {plain, LWT} x requests {no token, token without table, unknown keyspace, every strategy of the family x query tokens} on token-aware policies. Leg config: {all up, all down, all disabled, each single node down / disabled} x the same preferences x failover x inherited/own preference x shuffle on/off x token-aware on/off x 5 LWT kinds; plus, x {plain, LWT}: policies obtained through other entry points (builder with contradicting setters called first, clone of an already used builder, DefaultPolicyBuilder::default(), DefaultPolicy::default()), latency awareness switched on with equal latencies reported for every node (nobody penalised), and the mid-plan history (after the first target its node goes down and every other enabled node flips up<->down: the rest of the plan is judged against the new states; thorough: also on the structure leg). Also two clusters with an empty ring. Group letters: R/L/M live replica in preferred rack / preferred DC / remote, r/l/m live non-replica, d down. Plus the repo's pinned 7-node cluster under few + seeded random (SAMPLED) node-state assignments. distinct_nontrivial = plans with >= 3 targets from >= 2 groups.");
     r.set_exhaustive(true);
     r.assume("the driver's thread RNG (round-robin rotation, replica shuffle, random first replica) is not owned: SAMPLED dimension, every assertion is a set/group property that holds for each of its answers; LWT replica order is asserted exactly because it must not depend on it");
     r.assume("nodes have no sharder (no connection), so every target's shard is 0 / unspecified: 'named twice' = same node twice; fallback() is additionally checked under the plan's own target equality");
